@@ -179,9 +179,12 @@ func (c14) Case(c *core.Ctx) {
 	if r.Intn(5) == 0 {
 		cfg.Lower = true
 	}
+	if r.Intn(4) == 0 {
+		cfg.Snake = true // the skip function is asked about the key as it appears in the Map (a_b, not a-b)
+	}
 	c.Distinct("flagcombos", uint64(bits))
 	root := c14gen.Gen(r, r.Intn(5))
-	if cfg.usesReserved(root) || cfg.keyClash(root) {
+	if cfg.usesReserved(root) || cfg.keyClash(root) || cfg.elemStartsWithAttrPrefix(root) { // (the lock-step walker tells attributes from elements by the prefix)
 		c.Count("skipped:outside-domain")
 		return
 	}
@@ -189,6 +192,7 @@ func (c14) Case(c *core.Ctx) {
 	cfg.Apply()
 	defer ResetDefaults()
 	c.Eval()
+	failedCalls(c, 8)
 	det := core.D{"config": cfg.String(), "doc": string(doc)}
 	anyChanged := false
 	// ---- Map pair ----
